@@ -49,12 +49,15 @@ Definition started_of (o : x_obs) (h : N) : nat :=
 (* monitor state: quiet = hashes whose current entry has a successful probe, with the expected estimate;
    failed = hashes whose current entry's last probe failed (a retry is due); stale = probes in flight for entries
    that left the table; ever_ok = hashes with some successful probe so far *)
-Record mon := { m_quiet : list (N * (Z * Z)); m_failed : list N; m_stale : list N; m_ever_ok : list N }.
-Definition mon0 : mon := {| m_quiet := []; m_failed := []; m_stale := []; m_ever_ok := [] |}.
+Record mon := { m_quiet : list (N * (Z * Z)); m_failed : list N; m_stale : list N; m_ever_ok : list N;
+                m_jobs : list (N * N) (* hash -> job, from the latest update *); m_info : list N (* jobs the scrape manager has a client for *) }.
+Definition mon0 : mon := {| m_quiet := []; m_failed := []; m_stale := []; m_ever_ok := []; m_jobs := []; m_info := [0; 1; 2]%N |}.
 
 Definition mon_next (m : mon) (prev : x_obs) (op : x_op) : mon :=
   match op with
   | XGet _ | XTimers => m
+  | XJobInfo jobs => {| m_quiet := m_quiet m; m_failed := m_failed m; m_stale := m_stale m; m_ever_ok := m_ever_ok m;
+                        m_jobs := m_jobs m; m_info := jobs |}
   | XUpdate jobs =>
     let hs := flat_map snd jobs in
     {| m_quiet := filter (fun q => existsb (N.eqb (fst q)) hs) (m_quiet m);
@@ -63,21 +66,23 @@ Definition mon_next (m : mon) (prev : x_obs) (op : x_op) : mon :=
           before still are (a multiset: one entry per running stale probe) *)
        m_stale := filter (fun h => negb (existsb (N.eqb h) hs)) (xo_inflight prev) ++
                   filter (fun h => existsb (N.eqb h) hs) (m_stale m);
-       m_ever_ok := m_ever_ok m |}
+       m_ever_ok := m_ever_ok m;
+       m_jobs := flat_map (fun jl => map (fun h => (h, fst jl)) (snd jl)) jobs; m_info := m_info m |}
   | XApplyConfig _ =>       (* conservative: forget *)
-    {| m_quiet := []; m_failed := []; m_stale := xo_inflight prev; m_ever_ok := m_ever_ok m |}
+    {| m_quiet := []; m_failed := []; m_stale := xo_inflight prev; m_ever_ok := m_ever_ok m; m_jobs := m_jobs m; m_info := m_info m |}
   | XDone h r =>
     if existsb (N.eqb h) (m_stale m)
     then {| m_quiet := m_quiet m; m_failed := m_failed m;
             m_stale := remove_first h (m_stale m);    (* the oldest running probe of h finishes: a stale one, if any *)
-            m_ever_ok := match r with POk _ _ => h :: m_ever_ok m | PFail => m_ever_ok m end |}
+            m_ever_ok := match r with POk _ _ => h :: m_ever_ok m | PFail => m_ever_ok m end;
+            m_jobs := m_jobs m; m_info := m_info m |}
     else if Nat.eqb (length (filter (N.eqb h) (xo_inflight prev))) 1
     then match r with
          | POk s t => {| m_quiet := aset h (s, t) (m_quiet m); m_failed := filter (fun x => negb (N.eqb x h)) (m_failed m);
-                         m_stale := m_stale m; m_ever_ok := h :: m_ever_ok m |}
+                         m_stale := m_stale m; m_ever_ok := h :: m_ever_ok m; m_jobs := m_jobs m; m_info := m_info m |}
          | PFail => {| m_quiet := m_quiet m;
                        m_failed := if existsb (fun q => N.eqb (fst q) h) (m_quiet m) then m_failed m else h :: m_failed m;
-                       m_stale := m_stale m; m_ever_ok := m_ever_ok m |}
+                       m_stale := m_stale m; m_ever_ok := m_ever_ok m; m_jobs := m_jobs m; m_info := m_info m |}
          end
     else m
   end.
@@ -107,7 +112,9 @@ Definition chk_rest (workers : nat) (m : mon) (prev cur : x_obs) (op : x_op) : b
     (* a failed probe is retried after the retry interval: once the timers have fired, every tracked target whose last
        probe failed is being probed again (or waits in the queue because every worker is busy) *)
     forallb (fun h => existsb (N.eqb h) (xo_inflight cur) || Nat.ltb (started_of prev h) (started_of cur h) ||
-                      Nat.leb workers (length (xo_inflight cur))) (m_failed m)
+                      Nat.leb workers (length (xo_inflight cur)) ||
+                      (* no client for its job: the retry fails at once again, nothing is sent *)
+                      match afind h (m_jobs m) with Some j => negb (existsb (N.eqb j) (m_info m)) | None => false end) (m_failed m)
   | _ => true
   end.
 
